@@ -1,10 +1,14 @@
 """C05: correspondence for candidate cluster formation.
    fn 1: Record.add_protocluster* ; Record.create_candidate_clusters() ; Record.get_candidate_clusters()
+         (every protocluster carries its class: rule-based Protocluster or SideloadedProtocluster, both built by their
+         real constructors; the defining genes come out of the real add_cds path of Record.add_protocluster)
    fn 2: create_candidates_from_protoclusters(list in a given order, wrap point)
    fn 3: _merge_sets(groups)
    fn 101/102/103: the decidable specification evaluated on the implementation's output of fn 1/2/3
-   (101/102: six structural clauses + six clauses about the meaning of the kinds; 103: _merge_sets returns the
-   transitive groups); fn 21/22: class information for the REPAIRED findings candidate_index_window /
+   (101/102: six structural clauses + ten clauses about the meaning of the kinds, among them "every chemical hybrid
+   has two members sharing a defining gene as reported by the public definition_cdses" and "every transitive group of
+   hybrids / protoclusters with overlapping (joint) cores lies in one interleaved candidate", overlap on the ring for
+   circular records; 103: _merge_sets returns the transitive groups); fn 21/22: class information for the REPAIRED findings candidate_index_window /
    neighbouring_singles_not_linked (would the old bisect window / the old restriction to hit-less singles change the
    model's result on this input; used only to label a violation if a defect returns); fn 11/12: class of the
    repaired finding joint_core_wraps_assert.
@@ -24,6 +28,7 @@ STRAND_BACK = {1: 1, -1: -1, 0: 0, 2: None}
 MAX_PROTOS = 8   # protocluster ids are 0..7: they hash to their id, so Python sets iterate in ascending id
 
 _CLS = {}
+STATS = {}
 
 
 def classes():
@@ -31,6 +36,7 @@ def classes():
     if _CLS:
         return _CLS
     from antismash.common.secmet.features import Protocluster
+    from antismash.common.secmet.features.protocluster import SideloadedProtocluster
     from antismash.common.secmet.features.candidate_cluster import formation
     from antismash.common.secmet.locations import FeatureLocation, CompoundLocation
     from antismash.common.secmet.qualifiers.gene_functions import GeneFunction
@@ -43,7 +49,14 @@ def classes():
         def __hash__(self):
             return self.vid
 
-    _CLS.update(P=HashedProtocluster, formation=formation, FL=FeatureLocation, CL=CompoundLocation,
+    class HashedSideloaded(SideloadedProtocluster):  # pylint: disable=too-few-public-methods
+        """ the same for the only other class of protocluster in the code base (externally annotated) """
+        __slots__ = ["vid"]
+
+        def __hash__(self):
+            return self.vid
+
+    _CLS.update(P=HashedProtocluster, S=HashedSideloaded, formation=formation, FL=FeatureLocation, CL=CompoundLocation,
                 GF=GeneFunction, CDS=DummyCDS, Record=DummyRecord)
     return _CLS
 
@@ -82,9 +95,15 @@ def build_record(config):
         record.add_cds_feature(cds)
         genes[gid] = cds
     protos = []
+    side = config.get("side", ())
     for pid, extent, core, prod in config["protos"]:
-        proto = cls["P"](mk_loc(core), mk_loc(extent), tool="t", product=product_name(prod), cutoff=1,
-                         neighbourhood_range=0, detection_rule="r")
+        if pid in side:
+            # a SideloadedProtocluster, through its real constructor; Record.add_protocluster -> add_cds fills its
+            # private set of defining genes like for any protocluster, its public definition_cdses stays empty
+            proto = cls["S"](mk_loc(core), mk_loc(extent), "ext", product_name(prod))
+        else:
+            proto = cls["P"](mk_loc(core), mk_loc(extent), tool="t", product=product_name(prod), cutoff=1,
+                             neighbourhood_range=0, detection_rule="r")
         proto.vid = pid
         protos.append(proto)
     return record, protos, genes
@@ -126,7 +145,22 @@ def impl_direct(config, order):
     except Exception as exc:  # pylint: disable=broad-except
         return None, repr(exc)
     gid_of = {id(cds): gid for gid, cds in genes.items()}
+    # the defining genes as the PUBLIC property reports them (always none for a sideloaded protocluster)
     defs = [sorted(gid_of[id(cds)] for cds in proto.definition_cdses) for proto in protos]
+    if config.get("side"):
+        # statistics only: what add_cds recorded in the private set of the sideloaded protoclusters
+        private = [set(proto._definition_cdses) for proto in protos]  # pylint: disable=protected-access
+        for i, proto in enumerate(protos):
+            if proto.vid not in config["side"]:
+                continue
+            STATS["sideloaded_protoclusters"] = STATS.get("sideloaded_protoclusters", 0) + 1
+            assert not defs[i]
+            if private[i]:
+                STATS["sideloaded_whose_product_is_a_CORE_annotation_in_their_core"] = \
+                    STATS.get("sideloaded_whose_product_is_a_CORE_annotation_in_their_core", 0) + 1
+                if any(j != i and private[i] & private[j] for j in range(len(protos))):
+                    STATS["sideloaded_sharing_that_gene_with_another_protocluster"] = \
+                        STATS.get("sideloaded_sharing_that_gene_with_another_protocluster", 0) + 1
     wrap = config["n"] if config["circular"] else None
     try:
         cands = common.call_with_timeout(
@@ -164,8 +198,10 @@ def flat_record(config, order):
     for gid, parts, products in config["genes"]:
         out += [gid] + enc_loc(parts) + [len(products)] + list(products)
     out += [len(order)]
+    side = config.get("side", ())
     for i in order:
-        out += enc_proto(config["protos"][i])
+        # class flag: 1 = rule-based Protocluster (contributes defining genes), 0 = SideloadedProtocluster
+        out += enc_proto(config["protos"][i]) + [0 if config["protos"][i][0] in side else 1]
     return out
 
 
@@ -427,6 +463,196 @@ class Gen:
         genes = [(gid, parts, sorted(perm[p] for p in prods)) for gid, parts, prods in genes]
         return {"n": n, "circular": circular, "genes": genes, "protos": out}
 
+    def ring(self):
+        """ dense CIRCULAR records built around the origin, in unrolled coordinates (negative = before the origin):
+            three or four chemical hybrids (two protoclusters around one shared gene each) and loose protoclusters.
+            Hybrid X sits on the origin (its extent always crosses it, its joint core mostly), so its candidate sorts
+            first and its .end is the end of its post-origin part.  Hybrid Y is placed in a chosen relation to the
+            core of X: overlapping / touching / just clear of its pre-origin side, crossing the origin too, or
+            overlapping its post-origin side.  The remaining hybrids are nested in the (widened) neighbourhood of Y -
+            they sort after Y, which then is neither the first nor the last candidate -, or lie before Y, after the
+            origin, or far away.  Loose protoclusters get a core in a chosen relation to an earlier core. """
+        rng = self.rng
+        grid = rng.choice([1, 5, 10, 10])
+        units = rng.randint(64, 150)
+        n = units * grid
+        half = units // 2 - 2
+
+        def to_parts(iv):
+            s, e = iv
+            if s >= 0:
+                return [(s * grid, e * grid, 1)]
+            if e <= 0:
+                return [((units + s) * grid, (units + e) * grid, 1)]
+            return [((units + s) * grid, n, 1), (0, e * grid, 1)]
+
+        def clamp(iv):
+            s, e = max(-half, iv[0]), min(half, iv[1])
+            return (s, e) if s < e else (s, s + 1) if s < half else (s - 1, s)
+
+        pads = [0, 0, 1, 1, 2, 3, 5]
+        nbh = [0, 0, 1, 2, 3, 5, 8, 12]
+        n_hyb = rng.choice([3, 3, 3, 4])
+        n_loose = rng.randint(0, MAX_PROTOS - 2 * n_hyb)
+        genes = []     # (interval, [pids])
+        protos = []    # [ext, core] in unrolled units
+
+        def add_hybrid(gene, cores, exts=None):
+            pids = []
+            for k, core in enumerate(cores):
+                core = clamp(core)
+                ext = exts[k] if exts else (core[0] - rng.choice(nbh), core[1] + rng.choice(nbh))
+                ext = clamp((min(ext[0], core[0]), max(ext[1], core[1])))
+                pids.append(len(protos))
+                protos.append([ext, core])
+            genes.append((gene, pids))
+            return pids
+
+        # X, on the origin
+        if rng.random() < 0.5:
+            ge = -rng.choice([0, 0, 1, 2])
+            gene_x = (ge - rng.choice([1, 1, 2]), ge)
+        else:
+            gs = rng.choice([0, 0, 1, 2])
+            gene_x = (gs, gs + rng.choice([1, 1, 2]))
+        crossing_core = rng.random() < 0.65
+        cores = []
+        for k in range(2):
+            s, e = gene_x[0] - rng.choice(pads), gene_x[1] + rng.choice(pads)
+            if crossing_core and k == 0:
+                s, e = min(s, -rng.choice([1, 1, 2, 4])), max(e, rng.choice([1, 1, 2, 4]))
+            if not crossing_core:
+                s, e = (s, min(e, 0)) if gene_x[1] <= 0 else (max(s, 0), e)
+            cores.append((s, e))
+        exts = []
+        for k, (s, e) in enumerate(cores):
+            s, e = s - rng.choice(nbh), e + rng.choice(nbh)
+            if k == 0 or rng.random() < 0.7:
+                s, e = min(s, -rng.choice([1, 2, 3, 6])), max(e, rng.choice([1, 2, 3, 6]))
+            exts.append((s, e))
+        x_ids = add_hybrid(gene_x, cores, exts)
+        left = min(protos[i][1][0] for i in x_ids)     # pre-origin end of the joint core of X
+        right = max(protos[i][1][1] for i in x_ids)
+        leftmost = min(left, gene_x[0])                # everything placed further left stays clear of X's gene
+        rightmost = max(right, gene_x[1])
+
+        # Y, in a chosen relation to the core of X
+        rel = rng.choice(["overlap_pre"] * 9 + ["touch_pre"] * 2 + ["gap_pre"] * 2 + ["cross_too"] * 3 + ["overlap_post"] * 4)
+        if rel == "overlap_post":
+            gs = rightmost + rng.choice([0, 1, 2])
+            gene_y = (gs, gs + rng.choice([1, 1, 2]))
+            reach = right - rng.choice([1, 1, 2])
+            cores = [(min(reach, gene_y[0]), gene_y[1] + rng.choice(pads)),
+                     (gene_y[0] - rng.choice([0, 0, 1]), gene_y[1] + rng.choice(pads))]
+            y_edge = max(c[1] for c in cores)
+        else:
+            ge = min(leftmost, 0) - rng.choice([0, 1, 2, 3])
+            gene_y = (ge - rng.choice([1, 1, 2]), ge)
+            if rel == "overlap_pre":
+                reach = left + rng.choice([1, 1, 2])
+            elif rel == "touch_pre":
+                reach = left
+            elif rel == "gap_pre":
+                reach = left - rng.choice([1, 2])
+            else:
+                reach = rng.choice([1, 1, 2, 3])   # the core of Y crosses the origin as well
+            cores = [(gene_y[0] - rng.choice(pads), max(reach, gene_y[1])),
+                     (gene_y[0] - rng.choice(pads), gene_y[1] + rng.choice([0, 0, 1]))]
+            y_edge = min(c[0] for c in cores)
+        rng.shuffle(cores)
+        y_ids = add_hybrid(gene_y, cores)
+
+        # further hybrids
+        pre_edge = min(y_edge, leftmost, gene_y[0]) if rel != "overlap_post" else min(leftmost, 0)
+        post_edge = max(y_edge, rightmost, gene_y[1]) if rel == "overlap_post" else max(rightmost, 0)
+        for _ in range(n_hyb - 2):
+            mode = rng.choice(["nested"] * 5 + ["before"] * 2 + ["post"] * 2 + ["far"])
+            width = rng.choice([1, 1, 2])
+            if mode in ("nested", "before") and pre_edge - width - 8 > -half:
+                ge = pre_edge - rng.choice([1, 2, 3] if mode == "nested" else [3, 6, 10])
+                ge = max(ge, -half + width + 4)
+                gene = (ge - width, ge)
+                cores = [(gene[0] - rng.choice([0, 0, 1]), gene[1] + rng.choice([0, 0, 1])) for _ in range(2)]
+                ids = add_hybrid(gene, cores, [(c[0] - rng.choice([0, 1, 2]), c[1] + rng.choice([0, 1, 2])) for c in cores]
+                                 if mode == "nested" else None)
+                pre_edge = min(pre_edge, min(protos[i][0][0] for i in ids) if mode == "before" else gene[0] - 1)
+                if mode == "nested":
+                    # the neighbourhood of a member of Y (or X) is widened to hold the new hybrid: it sorts after Y
+                    host = rng.choice(y_ids if rel != "overlap_post" or rng.random() < 0.5 else x_ids)
+                    lo = min(protos[i][0][0] for i in ids) - rng.choice([0, 1, 2])
+                    protos[host][0] = clamp((min(protos[host][0][0], lo), protos[host][0][1]))
+                    pre_edge = min(pre_edge, lo)
+            elif mode == "far" and -half + 6 < pre_edge - 12:
+                ge = rng.randint(-half + 4, pre_edge - 10)
+                gene = (ge - width, ge)
+                add_hybrid(gene, [(gene[0] - rng.choice([0, 0, 1]), gene[1] + rng.choice([0, 0, 1])) for _ in range(2)])
+                pre_edge = min(pre_edge, gene[0] - 4)
+            elif post_edge + width + 8 < half:
+                gs = post_edge + rng.choice([1, 2, 3, 6])
+                gene = (gs, gs + width)
+                ids = add_hybrid(gene, [(gene[0] - rng.choice([0, 0, 1]), gene[1] + rng.choice([0, 0, 1])) for _ in range(2)])
+                post_edge = max(post_edge, gene[1] + 1)
+        # loose protoclusters: core in a chosen relation to an earlier core
+        for _ in range(n_loose):
+            os_, oe = rng.choice(protos)[1]
+            kind = rng.choice(["left", "right", "inside", "contain", "touch_l", "touch_r", "same", "free"])
+            a, b = rng.choice([1, 1, 2, 3, 6]), rng.choice([1, 1, 2, 3])
+            if kind == "left":
+                core = (os_ - a, os_ + b)
+            elif kind == "right":
+                core = (oe - b, oe + a)
+            elif kind == "inside" and oe - os_ >= 2:
+                s = rng.randint(os_, oe - 1)
+                core = (s, rng.randint(s + 1, oe))
+            elif kind == "contain":
+                core = (os_ - rng.choice(pads), oe + rng.choice(pads))
+            elif kind == "touch_l":
+                core = (os_ - a, os_)
+            elif kind == "touch_r":
+                core = (oe, oe + a)
+            elif kind == "same":
+                core = (os_, oe)
+            else:
+                s = rng.randint(-half, half - 1)
+                core = (s, s + rng.randint(1, 4))
+            core = clamp(core)
+            if rng.random() < 0.3:
+                other = rng.choice(protos)[0]
+                ext = (min(core[0], other[0]) - rng.choice([0, 0, 1]), max(core[1], other[1]) + rng.choice([0, 0, 1]))
+            else:
+                ext = (core[0] - rng.choice(nbh), core[1] + rng.choice(nbh))
+            protos.append([clamp(ext), core])
+        # ids (= set iteration order) and products unrelated to the position
+        order = list(range(len(protos)))
+        rng.shuffle(order)
+        renum = {old: new for new, old in enumerate(order)}
+        perm = list(range(len(protos)))
+        rng.shuffle(perm)
+        out = sorted((renum[i], to_parts(ext), to_parts(core), perm[i]) for i, (ext, core) in enumerate(protos))
+        gene_list = []
+        for gid, (iv, pids) in enumerate(sorted(genes)):
+            prods = sorted(perm[i] for i in pids)
+            if rng.random() < 0.15:
+                extra = rng.randrange(len(protos))
+                if perm[extra] not in prods:
+                    prods = sorted(prods + [perm[extra]])
+            gene_list.append((gid, [(to_parts(iv)[0][0], to_parts(iv)[0][1], rng.choice([1, 1, -1]))], prods))
+        return {"n": n, "circular": True, "genes": gene_list, "protos": out}
+
+    def sideload(self, config):
+        """ turns some protoclusters of a configuration into SideloadedProtoclusters (externally annotated): the
+            same coordinates and product, so that the product of a sideloaded protocluster coincides with the CORE
+            annotation of a gene in its core wherever the rule-based one had a defining gene (and does not where it
+            had none) """
+        rng = self.rng
+        p = rng.choice([0.15, 0.3, 0.5])
+        side = sorted(proto[0] for proto in config["protos"] if rng.random() < p)
+        if not side:
+            side = [rng.choice(config["protos"])[0]]
+        config = dict(config)
+        config["side"] = side
+        return config
+
     def sub_interval(self, extent, grid):
         rng = self.rng
         s, e, st = extent[0]
@@ -467,6 +693,14 @@ RULE = ("structured configurations: record length 12..400 on a grid of 1, 5 or 1
         "containing, touching, identical, elsewhere - to an earlier core; cores are placed independently of the extents, and "
         "extents are wide (up to the whole record), cover the whole extent of earlier protoclusters (nesting by extent) or share "
         "their start/end, so the order of candidates by extent is unrelated to the order of their cores; ids shuffled); "
+        "every sixth configuration is a dense RING layout: circular record of 64..1500 bases, three or four chemical hybrids "
+        "(pairs around a shared gene) and 0-2 loose protoclusters placed in unrolled coordinates around the origin: hybrid X on "
+        "the origin (extent always crossing, joint core mostly), hybrid Y in a chosen relation to the core of X (overlapping / "
+        "touching / clear of its pre-origin side, crossing the origin too, overlapping its post-origin side), further hybrids "
+        "nested in the widened neighbourhood of Y (sorting after it), before it, after the origin or far away; "
+        "in 30 % of all configurations some protoclusters (15/30/50 % each, at least one) are SideloadedProtoclusters with the "
+        "same coordinates and product, so that their product coincides with the CORE annotation of a gene in their core wherever "
+        "a rule-based protocluster would have had a defining gene, and does not elsewhere; "
         "every configuration is run through "
         "Record.create_candidate_clusters (protoclusters added in a random order; every order for <= 3 protoclusters "
         "in part of the cases) and through create_candidates_from_protoclusters on a permuted list; _merge_sets on "
@@ -598,6 +832,22 @@ CORPUS = [
      "protos": [(0, [(0, 10, 1)], [(2, 4, 1)], 0), (1, [(0, 10, 1)], [(1, 5, 1)], 1),
                 (2, [(45, 60, 1)], [(50, 52, 1)], 2), (3, [(45, 60, 1)], [(49, 53, 1)], 3),
                 (4, [(5, 30, 1)], [(12, 14, 1)], 4), (5, [(25, 50, 1)], [(31, 35, 1)], 5)]},
+    # classes of protocluster: gene 0 carries CORE functions for the products of 0 (rule-based) and 1 (SIDELOADED, its
+    # core holds the gene too: add_cds records it in the private set, the public definition_cdses stays empty); 0 and 1
+    # share no defining gene: no chemical hybrid, INTERLEAVED {0,1}; 2 (sideloaded) and 3 without any gene: INTERLEAVED
+    {"n": 4000, "circular": False, "genes": [(0, [(300, 400, 1)], [0, 1])], "side": [1, 2],
+     "protos": [(0, [(50, 600, 1)], [(100, 500, 1)], 0), (1, [(200, 800, 1)], [(250, 700, 1)], 1),
+                (2, [(2200, 2700, 1)], [(2250, 2600, 1)], 3), (3, [(2000, 2550, 1)], [(2100, 2500, 1)], 2)]},
+    # circular, three chemical hybrids: X = {0,1} crosses the origin (sorts first, its .end is the end of its post-origin
+    # part), the core of Y = {2,3} overlaps the pre-origin part of the core of X, Z = {4,5} is nested in the neighbourhood
+    # of Y and sorts after it (Y is neither the first nor the last candidate): INTERLEAVED {0,1,2,3}
+    {"n": 20000, "circular": True,
+     "genes": [(0, [(19085, 19095, 1)], [4, 5]), (1, [(19310, 19390, 1)], [2, 3]), (2, [(19920, 19980, 1)], [0, 1])],
+     "protos": [(0, [(19500, 20000, 1), (0, 400, 1)], [(19800, 20000, 1), (0, 100, 1)], 0),
+                (1, [(19600, 20000, 1), (0, 500, 1)], [(19900, 20000, 1), (0, 200, 1)], 1),
+                (2, [(19000, 19950, 1)], [(19300, 19850, 1)], 2), (3, [(18900, 19600, 1)], [(19200, 19400, 1)], 3),
+                (4, [(19000, 19150, 1)], [(19050, 19100, 1)], 4), (5, [(19020, 19180, 1)], [(19080, 19140, 1)], 5),
+                (6, [(18000, 19000, 1)], [(18100, 18200, 1)], 6), (7, [(9000, 11000, 1)], [(10000, 10100, 1)], 7)]},
 ]
 
 
@@ -613,9 +863,12 @@ ORDER_WITNESS = ({"n": 165, "circular": False, "genes": [(0, [(25, 110, 1)], [3,
 def run(chk):
     if not chk.build_and_audit():
         return chk.finish(RULE)
+    import time
+    phases = {"build_and_audit": round(time.time() - chk.t0, 1)}
+    t_phase = time.time()
     gen = Gen(chk.rng)
     rng = chk.rng
-    total = 10000 if chk.tier == "quick" else 150000
+    total = 8400 if chk.tier == "quick" else 120000
     cases, impl_outs, specs = [], [], []
     skipped = 0
 
@@ -658,8 +911,15 @@ def run(chk):
         elif i % 3 == 2:
             config = gen.layout()
             chk.count("layout_configurations")
+        elif i % 6 == 4:
+            config = gen.ring()
+            chk.count("ring_configurations")
         else:
             config = gen.config(circular=True if wrapping else None, wrapping=wrapping)
+        if i >= len(CORPUS) and rng.random() < 0.3:
+            config = gen.sideload(config)
+        if config.get("side"):
+            chk.count("configurations_with_sideloaded_protoclusters")
         nprot = len(config["protos"])
         chk.count(f"protoclusters_{nprot}")
         chk.count("circular" if config["circular"] else "linear")
@@ -709,7 +969,10 @@ def run(chk):
                     {"function": 3, "groups": groups})
                 chk.count("merge_sets")
     chk.extra["skipped_invalid_configurations"] = skipped
+    chk.extra["classes_of_protocluster (direct calls)"] = dict(STATS)
 
+    phases["generate_and_run_implementation"] = round(time.time() - t_phase, 1)
+    t_phase = time.time()
     model_outs = common.correspondence(chk, cases, impl_outs, spec_fn_offset=None, describe=describe)
     # the decidable specification on every implementation output
     verdicts = common.run_driver([s for _, s in specs])
@@ -744,7 +1007,13 @@ def run(chk):
                   "every transitive group of overlapping extents lies in one candidate",
                   "a neighbouring candidate is exactly one transitive group of overlapping extents",
                   "an interleaved candidate is connected by overlapping cores",
-                  "a protocluster outside hybrid/interleaved candidates has its single (or a same-coordinate parent)"]
+                  "a protocluster outside hybrid/interleaved candidates has its single (or a same-coordinate parent)",
+                  "every chemical hybrid has two members sharing a defining gene (public definition_cdses)",
+                  "every other member of a chemical hybrid has its core inside the joint core of a sharing group",
+                  "a protocluster sharing with nobody whose core lies inside the joint core of a sharing group is a member of "
+                  "the chemical hybrid of that group",
+                  "every transitive group of hybrids/protoclusters with overlapping (joint) cores lies in one "
+                  "interleaved (or hybrid) candidate, overlap on the ring"]
     clause_names = base_names + kind_names
     nverdict = 1 + len(clause_names)
     # class test of the repaired finding `joint_core_wraps_assert`, computed by the model (fn 11 / 12) for the
@@ -816,8 +1085,12 @@ def run(chk):
                        "model": model_outs[idx], "input": describe(cases[idx]), "spec_verdict": verdict,
                        "failed_clauses": failed, "class_info": info})
     chk.extra["spec_evaluated"] = len(specs)
+    phases["model_and_specification"] = round(time.time() - t_phase, 1)
+    t_phase = time.time()
     chk.extra["implementation_raised"] = raised
     chk.crosscheck_vm(cases, model_outs)
+    phases["vm_compute_crosscheck"] = round(time.time() - t_phase, 1)
+    chk.extra["phase_seconds"] = phases
     return chk.finish(RULE)
 
 
